@@ -185,7 +185,9 @@ Record ecase := {
   e_alive : bool;            (* afterwards a well-formed connection was served *)
   e_status : N;              (* HTTP status of the response on this connection, 0 = none (connection failed) *)
   e_xff : option str;        (* X-Forwarded-For at the origin as a 16-byte address *)
-  e_sock_ip : str            (* the client socket's own IP *)
+  e_sock_ip : str;           (* the client socket's own IP *)
+  e_closed : bool            (* when there was no response: the proxy closed the connection (true) or left it open until
+                                the client gave up after header timeout + 1.5 s (false) *)
 }.
 
 Definition ecase_verdict (c : ecase) : N :=
@@ -194,7 +196,7 @@ Definition ecase_verdict (c : ecase) : N :=
   | Some (a, n) =>
       let exp := match adv_remote a (A false (e_sock_ip c) 0) with Some ad => a_ip ad | None => [] end in
       if negb (e_status c =? 200) then 3 else if negb (ostr_eqb (e_xff c) (Some exp)) then 4 else 0
-  | None => if e_status c =? 0 then 0 else 5
+  | None => if negb (e_status c =? 0) then 5 else if e_closed c then 0 else 6
   end.
 
 (* the model predicts the crash: a nil RemoteAddr is dereferenced by the accept loop *)
@@ -206,6 +208,6 @@ Definition ecase_model_ok (c : ecase) : bool :=
       negb (e_crashed c) &&
       match r with
       | Ok _ rest => if str_eqb rest (e_req c) then (e_status c =? 200) && ostr_eqb (e_xff c) (Some (a_ip ad)) else true
-      | Err _ _ => e_status c =? 0
+      | Err _ _ => (e_status c =? 0) && e_closed c
       end
   end.
